@@ -478,10 +478,51 @@ pub fn run_suggest(seed: u64, n: usize, out: &mut Out) {
                 name = mutate_name(&mut r, &name);
             }
             let src = if info.is_enum {
-                match r.below(3) {
+                // struct-like samples `(variant(items))`: the unknown name goes inside the variant's own list
+                let structs: Vec<&&str> = info.valid.iter().filter(|v| v.starts_with('(') && v.ends_with("))") && v[1..].contains('(')).collect();
+                match r.below(if structs.is_empty() { 3 } else { 6 }) {
                     0 => format!("x({})", name),
                     1 => format!("x({} = 1)", name),
-                    _ => format!("x = \"{}\"", name),
+                    2 => format!("x = \"{}\"", name),
+                    _ => {
+                        let v = **r.pick(&structs);
+                        // prefer names close to the chosen variant's own fields (skipped and flatten ones included)
+                        let head = v[1..].split('(').next().unwrap_or("").trim().to_string();
+                        let mut own: Vec<String> = vec![];
+                        if let syn::Data::Enum(en) = &decls[info.name].data {
+                            for var in &en.variants {
+                                let mut names = transforms(&var.ident.to_string());
+                                for it in recv::darling_items(&var.attrs) {
+                                    if let darling_core::ast::NestedMeta::Meta(syn::Meta::NameValue(nv)) = it {
+                                        if nv.path.is_ident("rename") {
+                                            if let syn::Expr::Lit(syn::ExprLit { lit: syn::Lit::Str(s), .. }) = &nv.value {
+                                                names.push(s.value());
+                                            }
+                                        }
+                                    }
+                                }
+                                if names.contains(&head) {
+                                    for f in &var.fields {
+                                        if let Some(id) = &f.ident {
+                                            own.push(id.to_string());
+                                        }
+                                    }
+                                }
+                            }
+                        }
+                        if !own.is_empty() && r.chance(3, 4) {
+                            name = r.pick(&own).clone();
+                            for _ in 0..r.below(3) {
+                                name = mutate_name(&mut r, &name);
+                            }
+                        }
+                        let body = &v[..v.len() - 2];
+                        if body.ends_with('(') {
+                            format!("x{}{} = 1))", body, name)
+                        } else {
+                            format!("x{}, {} = 1))", body, name)
+                        }
+                    }
                 }
             } else {
                 let (mut items, _) = compose(&mut r, &info, 0);
